@@ -37,6 +37,7 @@ where
         crate::verif::emit(crate::verif::Event::RcShift {
             cachesz: self.cachesz,
             carry: self.low > 0xFFFF_FFFF,
+            low: self.low,
         });
         if self.low < 0xFF00_0000 || self.low > 0xFFFF_FFFF {
             let mut tmp = self.cache;
